@@ -50,6 +50,10 @@ def content_pool(rng):
         'nul7999': b'A' * 7999 + b'\x00\nB\r\n',          # NUL inside the probe: auto = binary
         'bigtext': big_text,
         'utf8': 'çğü\nαβγ\n'.encode(),
+        # long runs of line endings (seeded change C02-5: a chunked text digest took an all-CR/LF chunk for end of file): two texts
+        # with the same prefix before the run, and a run aligned to the 8 KiB buffer of io::copy
+        'lfrun-a': b'header' + b'\n' * 20000 + b'total,A', 'lfrun-b': b'header' + b'\n' * 20000 + b'total,B',
+        'crlf-aligned': b'a' * 8192 + b'\r\n' * 4096 + b'tail',
     }
     return pool
 
